@@ -3,10 +3,10 @@ use std::cmp::Ordering;
 
 use trustfall_core::ir::FieldValue;
 
-use crate::framework::*;
-use crate::rng::Rng;
-use crate::sexp::Sexp;
-use crate::values::*;
+use tfharness::framework::*;
+use tfharness::rng::Rng;
+use tfharness::sexp::Sexp;
+use tfharness::values::*;
 
 pub struct C08;
 
@@ -195,4 +195,8 @@ fn num(v: &FieldValue) -> Option<i128> {
         FieldValue::Uint64(u) => Some(*u as i128),
         _ => None,
     }
+}
+
+fn main() {
+    main_for(vec![Box::new(C08)]);
 }
